@@ -482,6 +482,31 @@ def gen_hstore_case(rng):
   return {'kind': 'hstore', 'ops': ops}
 
 
+def stale_mask(ops):
+  """For a handle history: True at the positions whose output depends on a stale handle (one
+  opened before a later 'w' of the same path) — reads through it, and everything read from a path
+  after a write through a stale handle until the path is overwritten again."""
+  gen, tainted, handles, mask = {}, set(), [], []
+  for op in ops:
+    k = op['k']
+    if k in ('hread', 'hreadline', 'hwrite', 'hclose'):
+      h = handles[op['h']] if op['h'] < len(handles) else None
+      stale = h is not None and gen.get(h[0], 0) != h[1]
+      if k == 'hwrite' and stale:
+        tainted.add(h[0])
+      mask.append(bool(h is not None and k != 'hclose' and (stale or h[0] in tainted)))
+      continue
+    key = norm_path(op['p'])
+    rewrites = k == 'save' or (k in ('seqw', 'write', 'hopen') and op.get('m') == 'w')
+    if rewrites:
+      gen[key] = gen.get(key, 0) + 1
+      tainted.discard(key)
+    if k == 'hopen':
+      handles.append((key, gen.get(key, 0)))
+    mask.append(k in ('load', 'seqr') and key in tainted)
+  return mask
+
+
 def gen_messy_store_case(rng):
   """Malformed stream for the stores: paths that are prefixes of each other, double slashes,
   directories used as files, missing parents (error classes are compared with the model)."""
@@ -1299,6 +1324,14 @@ class C05(Prop):
       return None if a == b else 'impl=%s model=%s' % (json.dumps(a)[:300], json.dumps(b)[:300])
     if k in ('store', 'hstore'):
       a, b = impl_out['model']['outs'], model_out['outs']
+      if k == 'hstore':
+        # Public-API projection: what a handle that predates a later 'w' of its path reads, and
+        # what the path holds after a write through such a stale handle, is not fixed by the
+        # property (POSIX keeps the inode, this file system may keep or replace the buffer):
+        # those positions are not compared.
+        mask = stale_mask(case['ops'])
+        a = [None if m else x for x, m in zip(a, mask)]
+        b = [None if m else x for x, m in zip(b, mask)]
       if a != b:
         for i, (x, y) in enumerate(zip(a, b)):
           if x != y:
